@@ -62,9 +62,17 @@ func (c06) Plan(tier string, seed int64) []core.Scenario {
 		k, s := 3+rng.Intn(3), 1+rng.Intn(3)
 		out = append(out, core.Sc("cancel").WithS("transport", "ws").WithN("k", k).WithN("s", s).WithN("mask", 1+rng.Intn(1<<(k+s)-1)).WithN("inst", []int{1, 2, 4}[rng.Intn(3)]).WithN("clients", 1+rng.Intn(2)))
 	}
+	nPre := 12
+	if tier == "thorough" {
+		nPre = 120
+	}
 	for _, tr := range []string{"ws", "http"} {
-		for i := 0; i < 4; i++ {
-			out = append(out, core.Sc("precancelled").WithS("transport", tr).WithN("others", i))
+		for i := 0; i < nPre; i++ {
+			if tr == "http" && i >= 4 {
+				break
+			}
+			// reps: the cancel frame travels right behind its request; each scenario repeats the race
+			out = append(out, core.Sc("precancelled").WithS("transport", tr).WithN("others", i%4).WithN("reps", 12).WithN("atenqueue", i%2))
 		}
 	}
 	for i := 0; i < nW3; i++ {
@@ -296,18 +304,37 @@ func (c06) pre(sc core.Scenario, r *core.R) {
 		env.Svc.WaitEntered(m.tok, core.Grace)
 		others = append(others, m)
 	}
-	ctx, cancel := context.WithCancel(bg)
-	cancel()
-	t := Tok("x")
-	env.Svc.Hold(t)
-	o := Go(t, func() (string, error) { return cl.Echo(ctx, t, "") })
-	if !o.Wait(core.Grace) {
-		r.Violate("cancelled-call-hang", "%s: call with an already-cancelled context never returned", tr)
+	reps := sc.I("reps")
+	if reps == 0 {
+		reps = 1
 	}
-	if env.Svc.Enters(t) > 0 {
-		if !core.Eventually(core.Grace, func() bool { return env.Svc.Get(t).Ctx.Err() != nil }) {
-			r.Violate("cancel-not-delivered", "%s: handler of a pre-cancelled call ran with a context that never got cancelled", tr)
+	var t string
+	for rep := 0; rep < reps && !r.Violated(); rep++ {
+		ctx, cancel := context.WithCancel(bg)
+		if sc.I("atenqueue") == 1 && tr == "ws" {
+			// cancel the instant the request has been handed to the connection loop
+			before := pol.Count("cl.enqueue.after", 0)
+			go func() {
+				pol.WaitPoint("cl.enqueue.after", 0, before, time.Second)
+				cancel()
+			}()
+		} else {
+			cancel()
 		}
+		t = Tok("x")
+		env.Svc.Hold(t)
+		tt := t
+		o := Go(tt, func() (string, error) { return cl.Echo(ctx, tt, "") })
+		if !o.Wait(core.Grace) {
+			r.Violate("cancelled-call-hang", "%s: call cancelled before / right at sending never returned (its handler is still held: the cancel did not reach it); events: %s", tr, core.Log.Tail(30))
+		}
+		if env.Svc.Enters(tt) > 0 {
+			if !core.Eventually(core.Grace, func() bool { return env.Svc.Get(tt).Ctx.Err() != nil }) {
+				r.Violate("cancel-not-delivered", "%s: handler of a call cancelled before / right at sending ran with a context that never got cancelled", tr)
+			}
+		}
+		cancel()
+		r.Obs("precancelled", 1)
 	}
 	if tr == "ws" {
 		p := Tok("p")
@@ -322,8 +349,7 @@ func (c06) pre(sc core.Scenario, r *core.R) {
 			r.Violate("kept-call-failed", "%s: sibling of a pre-cancelled call failed: %v", tr, m.out.Err)
 		}
 	}
-	r.Key(fmt.Sprintf("pre %s others=%d", tr, len(others)), true)
-	r.Obs("precancelled", 1)
+	r.Key(fmt.Sprintf("pre %s others=%d atenq=%d", tr, len(others), sc.I("atenqueue")), true)
 	r.Sig(core.Log.Signature())
 	r.Sample(map[string]interface{}{"transport": tr, "instant": "context cancelled before the call", "siblings": len(others), "handler_ran": env.Svc.Enters(t)})
 }
